@@ -5,6 +5,23 @@ import os
 
 HERE = os.path.dirname(os.path.dirname(os.path.abspath(__file__)))
 
+# checks whose Systems are also explored as two interleaved instances (mc/pairs.py) and with refused calls inside their
+# histories (mc/faults.py); DESIGN §8.9.  C08 / C13 / C20 enumerate inputs through "fn" tasks and carry two-object families
+# of their own, C14 explores refused calls natively, C15 pairs objects over one caller container itself.
+DERIVED = {"C01", "C02", "C03", "C04", "C05", "C06", "C07", "C09", "C10", "C11", "C12", "C16", "C17", "C18", "C19"}
+FAULTY = DERIVED - {"C12"}
+DERIVED_TEXT = {
+    True: " In addition every system of this check is explored (a) as two instances living in one process — same and "
+    "neighbouring configurations, events tagged by instance, schedules alternating / free interleaving / second object constructed "
+    "after the first was used / one running ahead, each instance judged by its own oracle — and (b) with at most k malformed calls "
+    "(k = 1 quick, 2 thorough) anywhere in a history, which must be refused, must not move the counters and must leave every later "
+    "verdict of the oracle unchanged; both exhaustively up to a node budget derived from the check's own tasks (stated in the evidence).",
+    False: " In addition every system of this check is explored as two instances living in one process — same and neighbouring "
+    "configurations, events tagged by instance, schedules alternating / free interleaving / second object constructed after the first "
+    "was used / one running ahead, each instance judged by its own oracle — exhaustively up to a node budget derived from the check's "
+    "own tasks (stated in the evidence).",
+}
+
 # id -> (technique, level text, level note)
 CHECKS = {
     "C01": (
@@ -216,6 +233,8 @@ def main():
         pid = p["id"]
         if pid in CHECKS and os.path.exists(os.path.join(HERE, "checks", pid.lower() + ".py")):
             tech, text, note = CHECKS[pid]
+            if pid in DERIVED:
+                text += DERIVED_TEXT[pid in FAULTY]
             checks.append(
                 {
                     "property_id": pid,
